@@ -33,10 +33,13 @@ class watchdog:
     """ every implementation-side operation runs under a watchdog: a hang is a finding, never a check time-out """
     def __init__(self, seconds=20): self.seconds = seconds
     def _fire(self, signum, frame): raise Hang(f'operation did not return within {self.seconds}s')
+    # CPU-time budget (ITIMER_PROF) so that a loaded machine cannot fire it; wall-clock fallback at 30 x the budget (see simenv.watchdog)
     def __enter__(self):
-        self.old = signal.signal(signal.SIGALRM, self._fire); signal.alarm(self.seconds)
+        self.old = signal.signal(signal.SIGALRM, self._fire); self.oldp = signal.signal(signal.SIGPROF, self._fire)
+        signal.setitimer(signal.ITIMER_PROF, self.seconds); signal.alarm(self.seconds * 30)
     def __exit__(self, *exc):
-        signal.alarm(0); signal.signal(signal.SIGALRM, self.old); return False
+        signal.setitimer(signal.ITIMER_PROF, 0); signal.alarm(0)
+        signal.signal(signal.SIGPROF, self.oldp); signal.signal(signal.SIGALRM, self.old); return False
 
 
 class NullLogger:
